@@ -806,3 +806,85 @@ def _():
     m = mesh("triangle")
     u = ufl.TrialFunction(space(m, deg=2))
     return ufl.grad(ufl.grad(u)), TRI[:2]
+
+
+# ---------------------------------------------------------------------------
+# C08 on expression kernels: every access site in bounds for every facet index / permutation code
+
+
+def expr_bounds(name, spec):
+    from .kernelprops import NPERM, asan_run, site_queries
+
+    t0 = time.time()
+    res = _new_res(name)
+    try:
+        scalar = spec.get("scalar", "float64")
+        cm = scalar.startswith("complex")
+        expr, pts, c, m, ename, ed, kern = setup_expression(name, scalar)
+        dom, nw, nc, nx, nA = _layout(expr, pts, cm)
+        tdim = dom.topological_dimension
+        cellname = dom.ufl_cell().cellname
+        edim = pts.shape[1]
+        facet = edim < tdim
+        nfac = len(basix.topology(basix.CellType[cellname])[tdim - 1]) if facet else 1
+        facet_kind = {1: "interval", 2: ("quadrilateral" if cellname == "hexahedron" else "triangle")}.get(edim, "point")
+        nperm = NPERM.get(facet_kind, 1) if facet else 1
+        ext = {"A": nA, "w": nw, "c": nc, "coordinate_dofs": nx, "entity_local_index": 1 if facet else 0, "quadrature_permutation": 1 if facet else 0}
+        stats = eqcheck.QStats()
+        out, n = site_queries(kern, ext, list(range(nfac)), nperm, stats)
+        res["kernels"] += 1
+        res["entries"] += n
+        for desc, verdict, mdl in out:
+            if verdict == "unsat":
+                continue
+            if verdict == "sat":
+                e0, p0 = mdl.get("e0", 0), mdl.get("p0", 0)
+                failed, log = asan_run(c, kern, ext, (e0, 0), (p0, 0))
+                if failed:
+                    res["violations"].append({"key": f"expr:{name}:{desc.split(' line')[0]}",
+                                              "what": f"expression kernel {desc}: index {mdl['_index']} outside {mdl['_shape']} for local facet {e0}, permutation code {p0}; confirmed by ASan/UBSan", "replay": None})
+                elif failed is None:
+                    res["harness"].append(f"{name}: ASan replay build failed: {log[:200]}")
+                else:
+                    # out of range in one dimension of a table but inside the object as a whole: the sanitizer is silent
+                    res["violations"].append({"key": f"expr:{name}:{desc.split(' line')[0]}",
+                                              "what": f"expression kernel {desc}: subscript {mdl['_index']} outside the declared extents {mdl['_shape']} for local facet {e0}, permutation code {p0} (inside the object as a whole, so the sanitizer run is clean; C11 6.5.6 undefined behaviour, reported from the LIA model)", "replay": None}) if mdl["_index"] and any(i >= s_ or i < 0 for i, s_ in zip(mdl["_index"], mdl["_shape"])) and _flat_oob(mdl) else res["inconclusive"].append(f"{name}: {desc}: solver sat {mdl['_index']} vs {mdl['_shape']}, sanitizer run clean")
+            else:
+                res["harness"].append(f"{name}: {desc}: {verdict}")
+        res["queries"] = stats.q
+        res["solver_s"] = stats.secs
+        res["samples"].append({"expression kernel": kern.name, "access_sites": n, "facets": nfac, "permutation codes": nperm})
+    except gen.Rejected as e:
+        res["outside"].append(f"{name}: rejected by FFCx with {e}")
+    except (uflref.OracleUnsupported, RecursionError) as e:
+        res["outside"].append(f"{name}: {type(e).__name__}: {e}")
+    except KsymError as e:
+        res["harness"].append(f"{name}: ksym: {e}")
+    except Exception as e:
+        res["harness"].append(f"{name}: {type(e).__name__}: {e}\n{traceback.format_exc()[-1200:]}")
+    res["wall"] = time.time() - t0
+    return res
+
+
+def _flat_oob(mdl):
+    """True if the flattened address of the model's subscript lies outside the whole object."""
+    flat, size = 0, 1
+    for i, n in zip(mdl["_index"], mdl["_shape"]):
+        flat = flat * n + i
+        size *= n
+    return flat < 0 or flat >= size
+
+
+@ereg("facet_rank1_gradP1_triangle", "q")
+def _():
+    m = mesh("triangle")
+    v = ufl.TestFunction(space(m))
+    n = ufl.FacetNormal(m)
+    return ufl.dot(ufl.grad(v), n), np.array([[0.3], [0.8]])
+
+
+@ereg("facet_rank1_gradP1_tetrahedron", "q")
+def _():
+    m = mesh("tetrahedron")
+    v = ufl.TestFunction(space(m))
+    return ufl.grad(v), FTRI
